@@ -130,7 +130,8 @@ class Ctx:
                 self.known_hit[key] += 1
                 return False
         self._nviol_files += 1
-        if self._nviol_files <= 20:
+        newkey = all(v['key'] != key for v in self.violations)
+        if self._nviol_files <= 20 or (newkey and self._nviol_files <= 400):
             os.makedirs(REPLAYS, exist_ok=True)
             path = os.path.join(REPLAYS, f'{self.prop}-{self.tier}-{self._nviol_files}.json')
             with open(path, 'w') as f:
